@@ -1679,6 +1679,7 @@ def inline_package(trees: Dict[str, Tuple[ast.Module, bool]], known: Optional[Se
         from . import restore
         sources = restore.load_sources()
         restore.restore_functions(pkg, sources)
+        restore.restore_signatures(pkg, sources)
         for m in pkg.values():
             m._inline_new_constants()
         for m in pkg.values():
